@@ -149,6 +149,18 @@ def field_kinds(cls):
     of the real class."""
     import dataclasses
     out = {}
+    for k in cls.__mro__:
+        if "_is_expr_dataclass" in k.__dict__:
+            break
+        names = k.__dict__.get("init_arg_names")
+        if isinstance(names, tuple):
+            # legacy node (init-args protocol), possibly extending a decorated class
+            base = {}
+            if dataclasses.is_dataclass(cls):
+                base = {f.name: annotation_kind(f.type) for f in dataclasses.fields(cls)}
+            return {n: base.get(n, "v") for n in names}
+    if not dataclasses.is_dataclass(cls):
+        raise TypeError(f"{cls.__name__}: neither an expression dataclass nor a legacy class with static init_arg_names")
     for f in dataclasses.fields(cls):
         out[f.name] = annotation_kind(f.type)
     return out
